@@ -344,6 +344,209 @@ def batch_api_table(ctx):
     ctx.note_batch("api-table-vs-numpy-functions", cases, dis, exhaustive=False, refused_as_not_supported=refused)
 
 
+# --------------------------------------------------------------------------
+# the Lean model of the generator (PtModel.PyGen, object of `pygen_sound`) vs the real generator: TEXT
+# --------------------------------------------------------------------------
+
+def _text_cases(ctx):
+    """(label, graph) from the program stream, the scalar-operand forms, C19's near-misses and the API table"""
+    import operator
+    import pytato as pt
+    from .. import apitable
+    from . import c19
+    n = 1500 if ctx.thorough else 400
+    cfg = programs.Config(exclude=("csr",), output_namer=lambda k: ["zeta", "beta", "mid", "alpha", "omega"][k % 5]
+                          + ("" if k < 5 else str(k)))
+    for i in range(n):
+        p = programs.generate(ctx.seed + 1400, i, cfg)
+        yield f"program:{i}", pt.transform.deduplicate(p.expr())
+    scalars = [2, -2, 3, -3, 0, 1.5, -0.5, -2.0, np.int32(2), np.int64(-3), np.int8(-2), np.float32(1.5), np.float32(-2),
+               np.float64(1.1), np.float64(-2.0), True, float("inf"), float("-inf"), float("nan"), np.float64("inf"),
+               np.float64("-inf"), np.float32("inf"), np.float32("-inf"), np.float32("nan"), -0.0, np.float64(-0.0)]
+    ops = {"+": operator.add, "-": operator.sub, "*": operator.mul, "/": operator.truediv, "**": operator.pow,
+           "//": operator.floordiv, "%": operator.mod}
+    for dt in ("int8", "int32", "int64", "float32", "float64", "uint8"):
+        x = pt.make_placeholder("x", (4,), np.dtype(dt))
+        for s in scalars:
+            for on, op in ops.items():
+                for side in (0, 1):
+                    try:
+                        with np.errstate(all="ignore"):
+                            e = op(x, s) if side == 0 else op(s, x)
+                    except Exception:   # noqa: BLE001
+                        continue
+                    if isinstance(e, pt.Array):
+                        yield f"scalar:{dt}:{on}:{s!r}:{'array-op-scalar' if side == 0 else 'scalar-op-array'}", e
+    # fill values / typed constants of every kind
+    for dt in ("float32", "float64", "int32", "bool", "complex64"):
+        for v in (0, 1, 2, -3, 1.5, float("nan")):
+            try:
+                yield f"full:{dt}:{v!r}", pt.full((3, 2), v, dtype=np.dtype(dt))
+            except Exception:   # noqa: BLE001
+                continue
+        yield f"zeros:{dt}", pt.zeros((2, 3), dtype=np.dtype(dt))
+        yield f"ones:{dt}", pt.ones((2, 3), dtype=np.dtype(dt))
+    # several outputs in every insertion order
+    import itertools
+    a = pt.make_placeholder("a", (3,), np.float64)
+    outs = {"zeta": a + 1, "alpha": a * 2, "mid": a - 3}
+    for perm in itertools.permutations(outs):
+        yield "outputs:" + ",".join(perm), pt.make_dict_of_named_arrays({k: outs[k] for k in perm})
+    for label, il in c19.near_misses(ctx):
+        yield "near-miss:" + label, il
+    with np.errstate(all="ignore"):
+        for c in apitable.cases(ctx.seed, ctx.thorough):
+            if c["family"] == "sparse":
+                continue
+            try:
+                node = c["build"](**{k: pt.make_placeholder(k, v.shape, v.dtype) for k, v in c["inputs"].items()})
+            except Exception:   # noqa: BLE001
+                continue
+            if isinstance(node, pt.Array):
+                yield "api:" + c["label"], pt.transform.deduplicate(pt.make_dict_of_named_arrays({"o": node}))
+
+
+def _construct_of(line: str) -> str:
+    import re
+    m = re.search(r"_pt_np\.(\w+)", line)
+    if m:
+        return m.group(1)
+    if line.lstrip().startswith("return"):
+        return "return"
+    rhs = line.split("=", 1)[1] if "=" in line else line
+    if "{" in rhs:
+        return "dict"
+    if "[" in rhs:
+        return "subscript"
+    if rhs.strip().endswith(".T"):
+        return "T"
+    return "binop"
+
+
+def _run_program_text(args, body, inputs, bound=None):
+    """compile a function body (real or model) and run it on the inputs"""
+    src = "import numpy as _pt_np\nimport numpy as np\ndef _pt_kernel(*, " + ", ".join(args) + "):\n" \
+        + "\n".join("    " + ln for ln in body) + "\n" if args else \
+        "import numpy as _pt_np\nimport numpy as np\ndef _pt_kernel():\n" + "\n".join("    " + ln for ln in body) + "\n"
+    ns: dict = {}
+    exec(compile(src, "<pygen>", "exec"), ns)   # noqa: S102 - the generated program IS the object under test
+    kw = {k: v for k, v in inputs.items() if k in args}
+    kw.update(bound or {})
+    with np.errstate(all="ignore"):
+        return ns["_pt_kernel"](**kw)
+
+
+def _judge(ctx, label, expr, bp, real, model):
+    """a disagreement between the real generator and its model: find out on the REAL code whether the property
+    is violated (run the real program against the reference evaluator and the declared dtypes)"""
+    import pytato as pt
+    from ..reflect import walk
+    from pytato.array import DictOfNamedArrays, Placeholder
+    from . import c19
+    rng = np.random.default_rng(abs(hash(label)) % (2 ** 31) if False else 141)
+    inputs = {n.name: c19._data(rng, tuple(int(d) for d in n.shape), n.dtype)
+              for n in walk(expr) if isinstance(n, Placeholder) and all(isinstance(d, (int, np.integer)) for d in n.shape)}
+    try:
+        ref = evaluate(expr, inputs)
+    except Exception as e:   # noqa: BLE001
+        return None, f"reference evaluator fails: {type(e).__name__}"
+    if bp is None:
+        return None, "the real generator refuses"
+    try:
+        with np.errstate(all="ignore"):
+            got = bp(**{k: v for k, v in inputs.items() if k in bp.expected_arguments})
+    except Exception as e:   # noqa: BLE001
+        return f"the generated program fails at run time: {type(e).__name__}: {e}", None
+    items = [(k, got[k], ref[k], expr._data[k]) for k in expr._data] if isinstance(expr, DictOfNamedArrays) \
+        else [("result", got, ref, expr)]
+    for k, g, r, node in items:
+        g = np.asarray(g)
+        if g.shape != r.shape or not close(g, r, single=True, exact=False):
+            return (f"output {k}: the generated program returns {g.reshape(-1)[:6].tolist()} (shape {g.shape}), the "
+                    f"graph denotes {np.asarray(r).reshape(-1)[:6].tolist()} (shape {r.shape})"), None
+        if g.dtype != np.dtype(node.dtype):
+            return (f"output {k}: the generated program returns dtype {g.dtype}, the graph declares {node.dtype}"), None
+    return None, "the real program computes what the graph denotes"
+
+
+def batch_text_model(ctx):
+    """`(pygen …)`: the text the Lean model of NumpyCodegenMapper emits for the reflectively serialised real graph
+    vs the real `bp.program` (modulo the fixed module header), and the refusal classification"""
+    from .. import pygenser
+    cases, queries = [], []
+    for label, expr in _text_cases(ctx):
+        try:
+            q, _ = pygenser.serialise(expr)
+        except Exception as e:   # noqa: BLE001
+            ctx.broken.append(f"pygen-serialiser:{label.split(':')[0]}:{type(e).__name__}")
+            continue
+        bp = None
+        try:
+            with np.errstate(all="ignore"):
+                bp = pytarget.generate(expr)
+            real = ("program",) + pygenser.real_body(bp.program)
+        except _not_supported() as e:
+            real = ("refuse", type(e).__name__)
+        except Exception as e:   # noqa: BLE001
+            real = ("crash", f"{type(e).__name__}: {str(e)[:80]}")
+        cases.append((label, expr, bp, real))
+        queries.append(q)
+    answers = common.driver_query_parallel(queries)
+    dis = 0
+    counts = {"same-text": 0, "both-refuse": 0, "unmodelled": 0, "disagree": 0}
+    fam_counts: dict[str, dict[str, int]] = {}
+    unmodelled: dict[str, int] = {}
+    for (label, expr, bp, real), a in zip(cases, answers):
+        fam = label.split(":")[0]
+        fc = fam_counts.setdefault(fam, {"same-text": 0, "both-refuse": 0, "unmodelled": 0, "disagree": 0})
+        m = pygenser.parse_model(a)
+        if m[0] == "error":
+            ctx.broken.append(f"pygen-driver:{a[:60]}")
+            continue
+        if m[0] == "unmodelled":
+            counts["unmodelled"] += 1
+            fc["unmodelled"] += 1
+            unmodelled[m[1][:40]] = unmodelled.get(m[1][:40], 0) + 1
+            continue
+        if real[0] == "program" and m[0] == "program" and list(real[1]) == m[1] and list(real[2]) == m[2]:
+            counts["same-text"] += 1
+            fc["same-text"] += 1
+            continue
+        if real[0] != "program" and m[0] == "refuse":
+            counts["both-refuse"] += 1
+            fc["both-refuse"] += 1
+            continue
+        # ---- disagreement: search on the real code
+        counts["disagree"] += 1
+        fc["disagree"] += 1
+        dis += 1
+        if real[0] == "program" and m[0] == "program":
+            diff = next(((x, y) for x, y in zip(real[2], m[2]) if x != y), None)
+            if diff is None:
+                diff = (f"def …({', '.join(real[1])}) / {len(real[2])} lines", f"def …({', '.join(m[1])}) / {len(m[2])} lines")
+            what_diff = f"emits `{diff[0]}` where the model of the generator emits `{diff[1]}`"
+            construct = _construct_of(diff[0])
+        elif real[0] == "program":
+            what_diff = f"emits a program where the model refuses ({m[1]})"
+            construct = "accepts-" + m[1].split("(")[0]
+        else:
+            what_diff = f"{'refuses' if real[0] == 'refuse' else 'crashes'} ({real[1]}) where the model emits a program"
+            construct = "refuses"
+        bad, ok = _judge(ctx, label, expr, bp, real, m)
+        if bad is not None:
+            ctx.violation(f"pygen-text:{construct}",
+                          f"{label}: the NumPy-like target {what_diff}; {bad}",
+                          {"check": "pygen-text", "case": label, "real": real[1:] if real[0] == "program" else real,
+                           "model": m[1:], "observed": bad})
+        else:
+            ctx.broken.append(f"correspondence:pygen-text:{fam}:{construct}:{label[:60]}:{ok}")
+    total = sum(counts.values())
+    ctx.note_batch("lean-generator-model-vs-real-text", total, dis, exhaustive=False, counts=counts,
+                   per_family=fam_counts, unmodelled_reasons=unmodelled,
+                   modelled_fraction=round(1 - counts["unmodelled"] / max(total, 1), 4))
+
+
+
 def batch_names(ctx):
     """every function name the target can emit must exist in numpy (the array module)"""
     from pytato.target.python import numpy_like as nl
@@ -381,6 +584,7 @@ def run(ctx: common.Ctx):
     batch_near_misses(ctx)
     batch_api_table(ctx)
     batch_programs(ctx)
+    batch_text_model(ctx)
     ctx.broken = sorted(set(ctx.broken))[:50]
 
 
